@@ -306,7 +306,7 @@ def api_world(S: str, name: str) -> dict[str, list]:
             "ra": [(name, ("D", 3))] if "R" in S else []}
 
 
-SHAPES = ["plain", "for", "capture", "assign_in_block", "include", "nested", "lambda", "liquid", "render", "render2"]
+SHAPES = ["plain", "for", "capture", "assign_in_block", "include", "nested", "lambda", "liquid", "render", "render2", "render_with"]
 
 
 def api_program(S: str, name: str, shape: str) -> tuple[list[tuple], list[tuple]]:
@@ -354,13 +354,17 @@ def run_api(S: str, shape: str, path: int, none_for_empty: bool) -> dict[str, An
         return d if d or not none_for_empty else None
 
     P = Prog()
-    if shape in ("render", "render2"):
+    if shape in ("render", "render2", "render_with"):
         pre, _ = api_program(S, name, "plain")
         ns = [(name, ("D", 1))] if "B" in S else []
         args = "".join(f", {k}: '{pyval(v)}'" for k, v in ns)
         P.partials["r"] = "{{ " + name + " }}" + SEP
         if shape == "render":
             src = P.src(pre) + "{% render 'r'" + args + " %}" + "{{ " + name + " }}" + SEP
+        elif shape == "render_with":
+            # the binding is written into the namespace AFTER copy() has chained it (render_tag.py)
+            bound = (" with 'v1' as " + name) if ns else ""
+            src = P.src(pre) + "{% render 'r'" + bound + " %}" + "{{ " + name + " }}" + SEP
         else:
             # a render inside a rendered partial (inside a block of that partial)
             src = P.src(pre) + "{% render 'r1'" + args + " %}" + "{{ " + name + " }}" + SEP
@@ -403,7 +407,7 @@ def run_api(S: str, shape: str, path: int, none_for_empty: bool) -> dict[str, An
     if t.global_data is env.globals or (tg and t.global_data is tg):
         problems.append("template.global_data aliases a caller mapping (make_globals did not allocate)")
     return {"name": name, "world": w, "pre": pre, "nodes": nodes, "prog": P, "src": src, "segs": segs,
-            "partials": dict(P.partials), "problems": problems, "ns": ns if shape in ("render", "render2") else None}
+            "partials": dict(P.partials), "problems": problems, "ns": ns if shape in ("render", "render2", "render_with") else None}
 
 
 def spec_value(S: str, visible: str) -> tuple | None:
@@ -437,7 +441,7 @@ def part_a(chk: C.Check, thorough: bool) -> list[dict[str, Any]]:
                           "source": r["src"], "partials": r["partials"], "output": r["segs"]}
                 for p in r["problems"]:
                     chk.finding("api:" + p[:40], p, replay)
-                if shape in ("render", "render2"):
+                if shape in ("render", "render2", "render_with"):
                     segs = r["segs"]
                     ok_shape = len(segs) == (3 if "C" not in S else 4) and segs[-1] == ""
                     if not ok_shape:
@@ -445,14 +449,14 @@ def part_a(chk: C.Check, thorough: bool) -> list[dict[str, Any]]:
                         continue
                     inner, outer = token_of_text(segs[-3]), token_of_text(segs[-2])
                     # oracle: inside the partial the parent's locals and counters are invisible
-                    want_in = spec_value(S, "BRMTEU" if shape == "render" else "RMTEU")
+                    want_in = spec_value(S, "RMTEU" if shape == "render2" else "BRMTEU")
                     want_out = spec_value(S, "LRMTEUC")
                     for got, want, where in ((inner, want_in, "inside {% render %}"), (outer, want_out, "after {% render %}")):
                         stats["lookups"] += 1
                         g = ("U",) if got in (("N",), ("T",)) else got
                         if g != want:
                             chk.finding("precedence:" + where, f"layers {S}: {name} resolved to {got}, the documented order gives {want} {where}", replay)
-                    case = (f"{'chk_copy' if shape == 'render' else 'chk_copy2'} {cworld(r['world'])} {cops(r['prog'].ops(r['pre']))} {cdict(r['ns'])} "
+                    case = (f"{'chk_copy2' if shape == 'render2' else 'chk_copy'} {cworld(r['world'])} {cops(r['prog'].ops(r['pre']))} {cdict(r['ns'])} "
                             f"{ck(name)} {coval(inner)} {coval(outer)}")
                     items.append({"case": case, "model": f"render 30 {cworld(r['world'])} {cops(r['prog'].ops(r['pre']))}",
                                   "replay": replay})
@@ -663,8 +667,19 @@ def part_b(chk: C.Check, thorough: bool) -> list[dict[str, Any]]:
     cases.append((api_world("E", "x"), 30, [("assign", "x", ("D", 2)), ("extend", x1, [("pop",), ("lookup", "x")]), ("lookup", "x")], False))
     cases.append((api_world("", "x"), 30, [("incr", "x"), ("incr", "x"), ("decr", "y"), ("lookup", "x"), ("lookup", "y"),
                                              ("assign", "y", ("I", 5)), ("lookup", "y"), ("decr", "y")], True))
-    # (3) random nested sequences
     names = ["x", "y", "now", "today"]
+    # (2b) for every seed: the all-empty world and the worlds with exactly one non-empty
+    # caller mapping (falsy / nearly falsy chain maps: `global_data or {}` territory)
+    sparse = [{"eg": [], "tg": [], "m": [], "ra": []}]
+    for key, tokv in (("eg", 6), ("tg", 5), ("m", 4), ("ra", 3)):
+        for nm in ("x", "now"):
+            w0 = {"eg": [], "tg": [], "m": [], "ra": []}
+            w0[key] = [(nm, ("D", tokv))]
+            sparse.append(w0)
+    for wi, w0 in enumerate(sparse):
+        for j in range(24 if thorough else 8):
+            cases.append((w0, r.choice([30, 30, 4, 5, 6]), gen_ops(r, 3, r.randint(1, 9), j % 4 == 3, names), bool((wi + j) % 2)))
+    # (3) random nested sequences
     for i in range(6000 if thorough else 700):
         raw = r.random() < 0.3
         lim = r.choice([30, 30, 30, 4, 5, 6, 7])
@@ -760,6 +775,7 @@ def part_c(chk: C.Check, thorough: bool) -> list[dict[str, Any]]:
         except IndexError:
             status = 2
         size = cm.size()
+        total_len = len(cm)
         scope = [[(k, token_of(v)) for k, v in m.items()] if type(m) is dict else None for m in cm._maps]
         st["chains"] += 1
         st["ops"] += len(ops)
@@ -769,6 +785,7 @@ def part_c(chk: C.Check, thorough: bool) -> list[dict[str, Any]]:
         case = (f"(let r := exec_list 30 {cops(ops)} (raw_state {cstore} {cchain}) in "
                 f"list_eqb obs_eqb (trace_of r) {ctrace(trace)} && N.eqb (status_code (status_of r)) {status} "
                 f"&& Nat.eqb (cm_size (scope (state_of r))) {C.cnat(size)} "
+                f"&& Nat.eqb (mlen (store_of (state_of r)) (RChain (scope (state_of r)))) {C.cnat(total_len)} "
                 f"&& list_eqb (option_eqb dict_eqb) (scope_dicts (store_of (state_of r)) (scope (state_of r))) {sd})")
         items.append({"case": case, "model": f"observe (exec_list 30 {cops(ops)} (raw_state {cstore} {cchain}))",
                       "replay": {"store": store, "chain": [x[0] for x in refs], "ops": ops, "trace": trace,
@@ -1143,7 +1160,7 @@ def main(chk: C.Check, build: C.Build) -> None:
         "distinct_nontrivial_parts": {"A": nontrivial_a, "B": nontrivial_b, "D": nontrivial_d},
         "rule": ("A: every one of the 2^8 subsets of the eight layers binds one name (x, or now/today when the built-in layer is in the subset) "
                  "to distinct values through Environment(globals) / get_template|from_string(globals, matter) / render(args) / assign / "
-                 "with|for|include block / increment, in 9 program shapes (quick: one API path per case in rotation; thorough: all three); "
+                 "with|for|include block / increment, in 11 program shapes (quick: one API path per case in rotation; thorough: all three); "
                  "B: the same 256 subsets plus seeded random nested operation sequences on a real RenderContext; C: random ReadOnlyChainMap "
                  "histories; D: every registered filter x container path x argument shape, every expression-taking tag, filter pairs, "
                  "failing tails, 3 environments (one root and one failing tail per case in rotation; quick samples argument shapes, "
